@@ -244,7 +244,7 @@ static void BuildScenarios(std::vector<Scenario> & out, bool thorough)
      s.senders.push_back(Sender(0, 0, V(MS(1, 150, 1, 1), MS(2, 150, 2, 1), MS(3, 60, 3, 1), MS(4, 12, 0)))); s.senders.push_back(Sender(1, 0, V(MS(1, 150, 7, 1), MS(2, 40, 8, 0)))); out.push_back(s); }
    { Scenario s; s.name = "faults-mini-zlib9"; s.cfg = Cfg(K_MINI, false, 9, 150);
      s.senders.push_back(Sender(0, 0, V(MS(1, 120, 1, 1), MS(2, 120, 2, 1), MS(3, 120, 1, 0), MS(4, 35, 4, 0)))); out.push_back(s); }
-   if (thorough) {
+   {
       { Scenario s; s.name = "faults-tunnel-long"; s.cfg = Cfg(K_TUNNEL, false, 0, 40); s.preloadStart = true;   // 16 payload bytes per packet
         s.senders.push_back(Sender(0, 0xFFFFFFFEu, V(MS(1, 95, 1), MS(2, 95, 2), MS(3, 38, 3), MS(4, 95, 1)))); s.senders.push_back(Sender(1, 0xFFFFFFFEu, V(MS(1, 95, 2), MS(2, 38, 3)))); out.push_back(s); }
       { Scenario s; s.name = "faults-tunnel-slave-long"; s.cfg = Cfg(K_TUNNEL, true, 0, 48);
@@ -254,6 +254,14 @@ static void BuildScenarios(std::vector<Scenario> & out, bool thorough)
       { Scenario s; s.name = "faults-mini-slave-long"; s.cfg = Cfg(K_MINI, true, 1, 100);
         s.senders.push_back(Sender(0, 0, V(MS(1, 60, 1, 1), MS(2, 12, 0), MS(3, 70, 2, 1), MS(4, 76, 3), MS(5, 77, 4), MS(6, 35, 5), MS(7, 36, 6))));
         s.senders.push_back(Sender(1, 0, V(MS(1, 60, 1, 1), MS(2, 61, 7, 1)))); out.push_back(s); }
+   }
+   if (thorough) {
+      { Scenario s; s.name = "faults-tunnel-min-mtu-three-messages"; s.cfg = Cfg(K_TUNNEL, false, 0, 26);                 // 2 payload bytes per packet
+        s.senders.push_back(Sender(0, 0xFFFFFFFFu, V(MS(1, 12, 0), MS(2, 12, 0), MS(1, 12, 0)))); s.senders.push_back(Sender(1, 0, V(MS(2, 12, 0)))); out.push_back(s); }
+      { Scenario s; s.name = "faults-tunnel-four-senders"; s.cfg = Cfg(K_TUNNEL, true, 0, 60); s.preloadStart = true;        // 36 payload bytes per packet
+        for (int k = 0; k < 4; k++) s.senders.push_back(Sender(k == 3 ? 7 : k, k == 1 ? 0xFFFFFFFFu : 0, V(MS(1, 60, k + 1), MS(2, 60, k + 5)))); out.push_back(s); }
+      { Scenario s; s.name = "faults-tunnel-five-messages"; s.cfg = Cfg(K_TUNNEL, false, 0, 56);                             // 32 payload bytes per packet
+        s.senders.push_back(Sender(0, 0, V(MS(1, 95, 1), MS(2, 95, 2), MS(3, 12, 0), MS(4, 95, 1), MS(5, 96, 3)))); s.senders.push_back(Sender(2, 5, V(MS(1, 95, 2), MS(2, 95, 1)))); out.push_back(s); }
    }
 #undef V
 }
@@ -418,7 +426,7 @@ int main(int argc, char ** argv)
 
    // ---- case lists of the exactness parts (pure arithmetic; no muscle code runs in this process)
    std::vector<ExactCase> small, large;
-   const uint32 maxSmallMtu = T ? 400 : 160;
+   const uint32 maxSmallMtu = T ? 560 : 160;
    for (size_t ci = 0; ci < cfgs.size(); ci++) {
       const uint32 lo = MinMtu(cfgs[ci].kind) - 1;   // one below the documented minimum: the constructors clamp it
       for (uint32 mtu = lo; mtu <= maxSmallMtu; mtu++) {
